@@ -84,3 +84,188 @@ Proof.
     exfalso. destruct (sticky_l o (map LRun bs) s) as [S1 S2].
     destruct ST as [ST|ST]; [rewrite (S1 ST) in C1|rewrite (S2 ST) in C2]; discriminate.
 Qed.
+
+(* ---- a failed Shutdown ends the run: nothing is created or started afterwards ---------------------- *)
+From Verif Require Import C20.ObsCheck C20.ObsSound.
+
+Definition is_failed_shut (a : action) : bool := match a with AShutdown _ _ false => true | _ => false end.
+
+Lemma af_no_bringup l : forallb not_bringup l = true -> after_failed_shutdown_b l = true.
+Proof.
+  induction l as [|x l IH]; auto. cbn [forallb]. intros H. apply andb_true_iff in H as [H1 H2].
+  destruct x; cbn [after_failed_shutdown_b]; auto. destruct ok; auto.
+Qed.
+
+Lemma af_prefix pre l :
+  existsb is_failed_shut pre = false -> after_failed_shutdown_b (pre ++ l) = after_failed_shutdown_b l.
+Proof.
+  induction pre as [|x pre IH]; auto. cbn [existsb]. intros H. apply orb_false_iff in H as [H1 H2].
+  destruct x; cbn [app after_failed_shutdown_b]; auto. destruct ok; [auto|discriminate].
+Qed.
+
+Lemma af_app_tail l t :
+  after_failed_shutdown_b l = true -> forallb not_bringup t = true -> after_failed_shutdown_b (l ++ t) = true.
+Proof.
+  induction l as [|x l IH]; intros H T; [apply af_no_bringup; auto|].
+  destruct x; cbn [app after_failed_shutdown_b] in *; auto.
+  destruct ok; auto. rewrite forallb_app, H, T. reflexivity.
+Qed.
+
+Lemma existsb_app' {A} (f : A -> bool) l1 l2 : existsb f (l1 ++ l2) = existsb f l1 || existsb f l2.
+Proof. apply existsb_app. Qed.
+
+Lemma existsb_map_none {A} (f : action -> bool) (h : A -> action) l : (forall x, f (h x) = false) -> existsb f (map h l) = false.
+Proof. intros H. induction l; simpl; auto. now rewrite H. Qed.
+
+Transparent svc_shutdown.
+Lemma sweep_ok_no_failed g c : snd (svc_shutdown g c) = true -> existsb is_failed_shut (fst (svc_shutdown g c)) = false.
+Proof.
+  unfold svc_shutdown. cbn [fst snd existsb is_failed_shut orb]. induction (shut_order c) as [|x l IH]; auto.
+  cbn [forallb map existsb]. intros H. apply andb_true_iff in H as [H1 H2]. rewrite H1. cbn. auto.
+Qed.
+
+Lemma sweep_no_bringup g c : forallb not_bringup (fst (svc_shutdown g c)) = true.
+Proof. unfold svc_shutdown. cbn [fst forallb not_bringup bringup_gen andb]. apply forallb_map. reflexivity. Qed.
+Opaque svc_shutdown.
+
+Lemma closes_no_failed open : existsb is_failed_shut (closes_of open) = false.
+Proof. destruct open; reflexivity. Qed.
+
+Lemma fprefix_no_failed s : existsb is_failed_shut (final_prefix s) = false.
+Proof.
+  unfold final_prefix. rewrite existsb_app. fold (closes_of (st_open s)). rewrite closes_no_failed, orb_false_r.
+  induction (pred (length (st_watch s))); auto.
+Qed.
+
+Lemma fprefix_no_bringup s : forallb not_bringup (final_prefix s) = true.
+Proof.
+  unfold final_prefix. rewrite forallb_app. fold (closes_of (st_open s)).
+  assert (forallb not_bringup (closes_of (st_open s)) = true) as -> by (destruct (st_open s); reflexivity).
+  rewrite andb_true_r. induction (pred (length (st_watch s))); auto.
+Qed.
+
+(* SL2: once Run has returned nothing is created or started any more *)
+Lemma done_is_final o s l s' a k :
+  st_pc s = PDone k -> step o s l = (s', a) -> st_pc s' = PDone k /\ forallb not_bringup a = true /\ count is_return a = 0.
+Proof.
+  intros EP ST. destruct (is_run l) eqn:ER.
+  - destruct l; try discriminate. simpl in ST. unfold run_step in ST. rewrite EP in ST. inversion ST; subst. auto.
+  - destruct (env_step_shape o s l s' a ST ER) as [[->|[->| ->]] [_ [_ K]]]; rewrite K; auto.
+Qed.
+
+Lemma shape_af o g body err : setup_shape o g body err -> forall tail,
+  forallb not_bringup tail = true -> existsb is_failed_shut tail = false ->
+  after_failed_shutdown_b (body ++ tail) = true /\ (existsb is_failed_shut (body ++ tail) = true -> err <> None).
+Proof.
+  intros SH tail NT NF. destruct SH.
+  - split; [|discriminate].
+    rewrite af_prefix; [apply af_no_bringup; auto|]. cbn [existsb is_failed_shut orb]. apply existsb_map_none. reflexivity.
+  - assert (existsb is_failed_shut (AGet g true :: map (ACreate g) (create_order (cfg_of o g)) ++
+              map (fun x => AStart g x true) (start_order (cfg_of o g))) = false) as Z.
+    { cbn [existsb is_failed_shut orb]. rewrite existsb_app, !existsb_map_none by reflexivity. reflexivity. }
+    split.
+    + rewrite af_prefix by exact Z. apply af_no_bringup; auto.
+    + rewrite existsb_app, Z, NF. discriminate.
+  - split; [|discriminate].
+    replace ((AGet g true :: map (ACreate g) (create_order (cfg_of o g)) ++
+              (map (fun x => AStart g x true) pre ++ [AStart g k false]) ++ fst (svc_shutdown g (cfg_of o g))) ++ tail)
+      with ((AGet g true :: map (ACreate g) (create_order (cfg_of o g)) ++
+              (map (fun x => AStart g x true) pre ++ [AStart g k false])) ++ (fst (svc_shutdown g (cfg_of o g)) ++ tail))
+      by (cbn [app]; rewrite <- !app_assoc; reflexivity).
+    rewrite af_prefix.
+    + apply af_no_bringup. rewrite forallb_app, sweep_no_bringup, NT. reflexivity.
+    + cbn [existsb is_failed_shut orb]. rewrite !existsb_app, !existsb_map_none by reflexivity. reflexivity.
+Qed.
+
+(* SL1: a section that contains a failed Shutdown ends the run, and nothing is created or started
+   after it in that section *)
+Lemma failed_shutdown_section o s l s' a :
+  step o s l = (s', a) ->
+  after_failed_shutdown_b a = true /\ (existsb is_failed_shut a = true -> exists k, st_pc s' = PDone k).
+Proof.
+  intros ST. destruct (is_run l) eqn:ER.
+  2:{ destruct (env_step_shape o s l s' a ST ER) as [[->|[->| ->]] _]; split; auto; discriminate. }
+  destruct l; try discriminate. simpl in ST. unfold run_step in ST.
+  destruct (st_pc s) eqn:EP.
+  - inversion ST; subst. split; auto; discriminate.
+  - destruct (setup o (st_gen s) (st_open s)) as [[acts err] open'] eqn:ES.
+    apply setup_cases in ES as [body [-> SH]].
+    assert (forall tail, forallb not_bringup tail = true -> existsb is_failed_shut tail = false ->
+             after_failed_shutdown_b ((closes_of (st_open s) ++ body) ++ tail) = true /\
+             (existsb is_failed_shut ((closes_of (st_open s) ++ body) ++ tail) = true -> err <> None)) as B.
+    { intros tail NT NF. rewrite <- app_assoc, af_prefix by apply closes_no_failed.
+      rewrite existsb_app, closes_no_failed. cbn [orb]. apply (shape_af _ _ _ _ SH); auto. }
+    destruct err as [e|].
+    + destruct initial; inversion ST; subst; (split; [apply B; reflexivity|intros _; eexists; reflexivity]).
+    + inversion ST; subst. destruct (B [ASetState Running] eq_refl eq_refl) as [B1 B2].
+      split; auto. intros H. exfalso. apply (B2 H). reflexivity.
+  - unfold take in ST. destruct b;
+      repeat match type of ST with context [match ?x with _ => _ end] => destruct x end;
+      inversion ST; subst; split; auto; discriminate.
+  - destruct (svc_blocked _ _).
+    + inversion ST; subst. split; auto; discriminate.
+    + destruct (svc_shutdown (live_gen s) (cfg_of o (live_gen s))) as [acts ok] eqn:ESW.
+      assert (acts = fst (svc_shutdown (live_gen s) (cfg_of o (live_gen s)))) as EA by now rewrite ESW.
+      assert (ok = snd (svc_shutdown (live_gen s) (cfg_of o (live_gen s)))) as EO by now rewrite ESW.
+      destruct ok; inversion ST; subst.
+      * split; [apply af_no_bringup; rewrite forallb_app, sweep_no_bringup; reflexivity|].
+        rewrite existsb_app, sweep_ok_no_failed by auto. discriminate.
+      * split; [apply af_no_bringup; rewrite forallb_app, sweep_no_bringup; reflexivity|].
+        intros _. eexists; reflexivity.
+  - destruct (svc_blocked _ _).
+    + inversion ST; subst. split.
+      * apply af_no_bringup. rewrite !forallb_app, fprefix_no_bringup. reflexivity.
+      * rewrite !existsb_app, fprefix_no_failed. discriminate.
+    + destruct (svc_shutdown (live_gen s) (cfg_of o (live_gen s))) as [acts ok] eqn:ESW.
+      assert (acts = fst (svc_shutdown (live_gen s) (cfg_of o (live_gen s)))) as EA by now rewrite ESW.
+      inversion ST; subst. split.
+      * apply af_no_bringup. rewrite !forallb_app, fprefix_no_bringup, sweep_no_bringup. reflexivity.
+      * intros _. eexists; reflexivity.
+  - inversion ST; subst. split; auto; discriminate.
+  - inversion ST; subst. split; auto; discriminate.
+Qed.
+
+(* global: in every run, nothing is created or started after a component failed to shut down, and
+   a run containing a failed Shutdown has returned *)
+Lemma failed_shutdown_global o ls :
+  after_failed_shutdown_b (snd (run o init ls)) = true /\
+  (existsb is_failed_shut (snd (run o init ls)) = true -> exists k, st_pc (fst (run o init ls)) = PDone k).
+Proof.
+  induction ls as [|l ls IH] using rev_ind; [split; [reflexivity|discriminate]|].
+  rewrite run_app. destruct (run o init ls) as [s0 log0] eqn:E0. cbn [run].
+  destruct (step o s0 l) as [s1 a1] eqn:E1. cbn [fst snd] in *. rewrite app_nil_r.
+  destruct IH as [IH1 IH2].
+  destruct (failed_shutdown_section o s0 l s1 a1 E1) as [S1 S2].
+  destruct (existsb is_failed_shut log0) eqn:F0.
+  - destruct (IH2 eq_refl) as [k K]. destruct (done_is_final o s0 l s1 a1 k K E1) as [D1 [D2 _]].
+    split; [apply af_app_tail; auto|intros _; eauto].
+  - split; [rewrite af_prefix; auto|]. rewrite existsb_app, F0. cbn [orb]. exact S2.
+Qed.
+
+(* ---- Run returns THE ERROR: the one value a failed run returns is an error ---------------------------- *)
+Lemma failed_run_returns_error_l o ls : forall k,
+  st_pc (fst (run o init ls)) = PDone k -> k <> DStopped ->
+  exists l1 e l2, snd (run o init ls) = l1 ++ AReturn e :: l2 /\ e <> RNil /\ count is_return (l1 ++ l2) = 0.
+Proof.
+  induction ls as [|l ls IH] using rev_ind; intros k EP NK; [discriminate|].
+  rewrite run_app in *. destruct (run o init ls) as [s0 log0] eqn:E0. cbn [run] in *.
+  destruct (step o s0 l) as [s1 a1] eqn:E1. cbn [fst snd] in *. rewrite app_nil_r in *.
+  destruct (st_pc s0) eqn:EP0;
+    try (assert (forall k0, st_pc s0 <> PDone k0) as ND by (intros k0; rewrite EP0; discriminate);
+         destruct (is_run l) eqn:ER;
+         [destruct l; try discriminate;
+          pose proof (failure_returns_error_l o s0 b k ND) as FR; rewrite E1 in FR; cbn [fst snd] in FR;
+          destruct (FR EP NK) as [pre [e [-> NE]]];
+          pose proof (run_inv o ls s0 log0 E0) as [C0 _]; pose proof (C_ret _ _ C0) as R0; rewrite EP0 in R0;
+          pose proof (run_inv o (ls ++ [LRun b])) as RI; rewrite run_app, E0 in RI; cbn [run] in RI;
+          change (run_step o s0 b) with (step o s0 (LRun b)) in RI; rewrite E1 in RI; cbn [fst snd] in RI;
+          destruct (RI s1 (log0 ++ (pre ++ [AReturn e]) ++ []) eq_refl) as [C1 _]; pose proof (C_ret _ _ C1) as R1; rewrite EP in R1;
+          rewrite app_nil_r, !count_app, count_cons, count_nil in R1; cbn in R1;
+          exists (log0 ++ pre), e, []; rewrite app_nil_r, <- app_assoc; repeat split; auto; rewrite count_app; lia
+         |destruct (env_step_shape o s0 l s1 a1 E1 ER) as [_ [_ [_ K]]]; rewrite K, EP0 in EP; discriminate]).
+  destruct (done_is_final o s0 l s1 a1 k0 EP0 E1) as [D1 [_ D3]].
+  rewrite D1 in EP. inversion EP; subst k0.
+  destruct (IH k eq_refl NK) as [l1 [e [l2 [-> [NE Z]]]]].
+  exists l1, e, (l2 ++ a1). rewrite <- app_assoc. cbn [app]. repeat split; auto.
+  rewrite app_assoc, count_app, Z, D3. reflexivity.
+Qed.
